@@ -70,7 +70,7 @@ def splice(ix, paths, want, rounds=3, min_paths=1):
             for e in p.events:
                 if e.target is None or e.idx == -1 and False:
                     continue
-                if tag(e.result) != "call" or not want(e):
+                if tag(e.result) != "call" or e.opened or not want(e):
                     continue
                 try:
                     if len(ix.ok_paths_at(e.target, ix.param_map(e.target, e.args))) >= min_paths:
